@@ -170,10 +170,25 @@ def random_graph(rng, n, kinds=('list', 'dict', 'tuple', 'list')):
     return g
 
 
-def build(graph):
-    """Real objects for a graph; returns list of objects (index = node id - 1)."""
+class StandIn:
+    """an object of an unregistered class that prints the way a failed U / V is expected to: its repr"""
+
+    def __init__(self, nid):
+        self.nid = nid
+        self.kids = []
+
+    def __repr__(self):
+        return 'U_n%d' % self.nid
+
+
+def build(graph, standin=()):
+    """Real objects for a graph; returns list of objects (index = node id - 1). Nodes in `standin` are built as
+    StandIn objects (the independent reference for 'that value alone is rendered with its repr')."""
     objs = [None] * len(graph)
     for i, nd in enumerate(graph):
+        if nd['k'] == 'obj' and (i + 1) in standin:
+            objs[i] = StandIn(i + 1)
+            continue
         if nd['k'] == 'list':
             objs[i] = []
         elif nd['k'] == 'dict':
@@ -192,7 +207,7 @@ def build(graph):
         elif nd['k'] == 'dict':
             for j, r in enumerate(nd['c']):
                 objs[i][100 + j + 1] = wrap(graph, r, ref(r))
-        elif nd['k'] == 'obj':
+        elif nd['k'] == 'obj' and not isinstance(objs[i], StandIn):
             objs[i].kids = [wrap(graph, r, ref(r)) for r in nd['c']]
     return objs
 
@@ -603,6 +618,7 @@ def check_c14(chk, args):
     non_doc_scenarios(chk)
     commented_scenarios(chk)
     pair_faults(chk, trees[:: 3 if q else 1])
+    depth_faults(chk, trees[1:: 4 if q else 1])
     chk.cov['traces_validated_against_impl'] = len(cases)
     chk.cov['rule'] = ('trees / DAGs (<= 6 nodes) of instrumented user objects printed with pretty_call, nested in lists and '
                        'dicts, with and without trailing_comment wrappers, printers that do / do not accept '
@@ -708,6 +724,61 @@ def commented_scenarios(chk):
                     chk.nontrivial(('commented', name, width, fault, exc.__name__))
     chk.cov['evaluations'] += n
     chk.stage('commented', executions=n, faults_injected=nf)
+
+
+def depth_faults(chk, trees):
+    """A printer fails while a depth limit is in force (depth = 1, 2, 3 and None): the failing value is still rendered
+    with its repr - also when it sits exactly at the cut -, one warning is issued, the rest of the output is what it
+    would have been. The reference is independent of the fallback path: the same structure with the failing object
+    replaced by an object of an unregistered class that has the same repr."""
+    q = chk.tier == 'quick'
+    n = 0
+    for g, r in trees:
+        objs = build(g)
+        root = objs[r - 1]
+        for depth in (1, 2, 3, None):
+            def render(obj, fault=0, exc=ValueError):
+                Faults.inv, Faults.fault, Faults.exc, Faults.msg, Faults.hits, Faults.order = 0, fault, exc, 'boom', [], []
+                try:
+                    with warnings.catch_warnings(record=True) as wl:
+                        warnings.simplefilter('always')
+                        with common.time_limit(20):
+                            out = P.pformat(obj, width=60, depth=depth)
+                finally:
+                    ninv, hits, order = Faults.inv, list(Faults.hits), list(Faults.order)
+                    Faults.inv, Faults.fault, Faults.hits, Faults.order = 0, 0, None, None
+                return out, [str(w.message) for w in wl if 'raised an exception' in str(w.message)], ninv, hits, order
+            try:
+                base, _, ninv, _, order = render(root)
+            except (Exception, common.Timeout):  # noqa
+                continue
+            for fault in range(1, ninv + 1):
+                exc = EXCS[(fault + len(g)) % len(EXCS)]
+                desc = {'graph': g, 'depth': depth, 'fault': fault, 'exception': exc.__name__, 'baseline': base}
+                n += 1
+                try:
+                    out, wl, _, hits, _ = render(root, fault, exc)
+                except (Exception, common.Timeout) as e:  # noqa
+                    chk.violation('C14.contained', 'invocation #%d raising %s with depth=%r escaped from pformat as %r: '
+                                  'graph=%r' % (fault, exc.__name__, depth, e, g), desc)
+                    continue
+                desc['output'] = out
+                if not hits or order.count(hits[0]) != 1:
+                    continue
+                try:
+                    ref = render(build(g, standin={hits[0]})[r - 1])[0]
+                except (Exception, common.Timeout):  # noqa
+                    continue
+                if len(wl) != 1:
+                    chk.violation('C14.warning', 'invocation #%d failed with depth=%r: %d UserWarning(s) naming the printer '
+                                  '(expected 1): graph=%r' % (fault, depth, len(wl), g), desc)
+                if out != ref:
+                    chk.violation('C14.others-unchanged', 'with depth=%r and invocation #%d (object %d) failing the output is '
+                                  'not the text with that object rendered as its repr: %r vs %r'
+                                  % (depth, fault, hits[0], out, ref), dict(desc, reference=ref))
+                chk.nontrivial(('depth-fault', repr(g), depth, fault))
+    chk.cov['evaluations'] += n
+    chk.stage('faults under a depth limit', executions=n)
 
 
 def pair_faults(chk, trees):
